@@ -53,6 +53,19 @@ var programs = []prog{
 	{name: "buffered-two-receivers", body: "c := make(chan int, 1)\nc <- 1\ngo func() {\n <-c\n}()\n<-c\nfor {\n}"},
 	{name: "buffered-two-senders", body: "c := make(chan int, 1)\ngo func() {\n c <- 1\n}()\nc <- 2\nfor {\n}"},
 	{name: "buffered-range-and-receive", body: "c := make(chan int, 1)\nc <- 1\ngo func() {\n for range c {\n }\n}()\n<-c\nfor {\n}"},
+	// two-step histories: an earlier construct leaves state behind (a select flag, a
+	// stopped watcher, a recovered panic) and the code that must be cancellable comes later
+	{name: "select-default-then-empty-select", body: "c := make(chan int)\nselect {\ncase <-c:\ndefault:\n}\nselect {\n}"},
+	{name: "select-default-then-recv", body: "c := make(chan int)\nselect {\ncase <-c:\ndefault:\n}\n<-c"},
+	{name: "select-default-then-select", body: "c := make(chan int)\nd := make(chan int)\nselect {\ncase c <- 1:\ndefault:\n}\nselect {\ncase <-c:\ncase d <- 1:\n}"},
+	{name: "empty-select", body: "select {\n}"},
+	{name: "recovered-panic-then-loop", body: "func() {\n defer func() {\n  recover()\n }()\n panic(1)\n}()\nfor {\n}"},
+	{name: "recovered-panic-then-recv", body: "c := make(chan int)\nfunc() {\n defer func() {\n  recover()\n }()\n panic(1)\n}()\n<-c"},
+	{name: "recovered-runtime-fault-then-loop", body: "var m map[string]int\nfunc() {\n defer func() {\n  recover()\n }()\n m[\"a\"] = 1\n}()\nfor {\n}"},
+	{name: "recovered-panic-in-range-body-then-loop", body: "for range []int{1} {\n func() {\n  defer func() {\n   recover()\n  }()\n  panic(1)\n }()\n}\nfor {\n}"},
+	{name: "loop-in-deferred-call-while-panicking", body: "defer func() {\n for {\n }\n}()\npanic(1)"},
+	{name: "closed-range-then-recv", body: "c := make(chan int, 1)\nd := make(chan int)\nc <- 1\nclose(c)\nfor range c {\n}\n<-d"},
+	{name: "goroutine-recovered-panic-then-loop", body: "go func() {\n func() {\n  defer func() {\n   recover()\n  }()\n  panic(1)\n }()\n for {\n }\n}()\nselect {\n}"},
 	// loops made only of jumps
 	{name: "continue-loop", body: "for {\n continue\n}"},
 	{name: "goto-cycle", body: "A:\n goto B\nB:\n goto A"},
